@@ -235,16 +235,42 @@ def branch_histogram(lines):
 
 # ------------------------------------------------------------------------------------------------
 
-def run_split(ctx, model, impl, cases, tag, fuel=40000, timeout=900):
-    """run_both, but survives a harness that hangs or crashes on some case: returns the logs got so far and the
+def run_split(ctx, model, impl, cases, tag, fuel=40000, timeout=150, nproc=8):
+    """Model in one process, implementation in `nproc` parallel processes (chunks of the case list), each under a
+    watchdog: a harness that hangs or crashes on some case loses only the rest of its chunk.  Returns the logs and the
     first case without a complete implementation log (or None)."""
-    rc1, mlog, rc2, ilog, raw = conc_check.run_both(ctx, model, impl, cases, tag=tag, timeout=timeout, fuel=fuel)
+    import subprocess, time
+    cf = os.path.join(ctx.work, tag + ".txt")
+    conc_check.write_cases(cf, cases)
+    rc1, out1 = vcheck.sh("%s %d < %s" % (model, fuel, cf), timeout=600)
+    mlog = conc_check.parse_logs(out1)
+    nproc = max(1, min(nproc, vcheck.NCPU, (len(cases) + 9) // 10))
+    procs = []
+    for k in range(nproc):
+        chunk = cases[k::nproc]
+        f = os.path.join(ctx.work, "%s_%d.txt" % (tag, k))
+        conc_check.write_cases(f, chunk)
+        o = open(f + ".out", "w")
+        procs.append((subprocess.Popen([impl, f], stdout=o, stderr=subprocess.STDOUT), o, f + ".out"))
+    deadline = time.time() + timeout
+    rc2 = 0
+    ilog = {}
+    for p, o, path in procs:
+        try:
+            rc = p.wait(timeout=max(1.0, deadline - time.time()))
+        except subprocess.TimeoutExpired:
+            p.kill(); p.wait(); rc = 124
+        o.close()
+        if rc != 0:
+            rc2 = rc
+        ilog.update(conc_check.parse_logs(open(path, errors="replace").read()))
     missing = None
     for c in cases:
         i = ilog.get(c["id"])
-        if i is None or i["end"] is None:
-            missing = c
-            break
+        if i is None or i["end"] is None or not any(x.startswith("monitor retired") for x in i["extra"]):
+            if i is not None:
+                i["end"] = None
+            missing = missing or c
     return mlog, ilog, rc2, missing
 
 
